@@ -429,7 +429,7 @@ impl EnvAbs {
                 for ci in cis {
                     match ci {
                         CI::New { bid, vol, price, id } => {
-                            let _ = env.place(a, *bid, *vol, 100 + *id as u32, *price);
+                            let _ = env.place(a, *bid, *vol, crate::ops::trader_for(*id), *price);
                         }
                         CI::Cancel { id } => env.cancel(a, *id),
                         CI::Modify { id, price, vol } => env.modify(a, *id, *price, *vol),
@@ -474,10 +474,10 @@ impl EnvAbs {
                 for ci in &cis {
                     match ci {
                         CI::New { bid, vol, price, id } => {
-                            let r = env.place(a, *bid, *vol, 100 + *id as u32, *price);
+                            let r = env.place(a, *bid, *vol, crate::ops::trader_for(*id), *price);
                             let mut mid = Ok(0);
                             for m0 in m0s.iter_mut() {
-                                mid = m0.create(*bid, *vol, 100 + *id as u32, *price);
+                                mid = m0.create(*bid, *vol, crate::ops::trader_for(*id), *price);
                             }
                             match (r, mid) {
                                 (Ok((ra, rid)), Ok(mi)) if rid == *id && mi == *id && (ra == a || !self.multi) => {}
@@ -679,7 +679,7 @@ impl Model for EnvAbs {
                 let mut m0 = cand.clone();
                 for ci in &cis {
                     if let CI::New { bid, vol, price, id } = ci {
-                        let _ = m0.create(*bid, *vol, 100 + *id as u32, *price);
+                        let _ = m0.create(*bid, *vol, crate::ops::trader_for(*id), *price);
                     }
                 }
                 for perm in permutations(cis.len()) {
